@@ -308,16 +308,41 @@ def as_pid(shift):
         os.getpid = real
 
 
-def reader_check(item, root, pid_shift=0):
-    with as_pid(pid_shift):
-        return _reader_check(item, root)
+@contextlib.contextmanager
+def listing_order(first):
+    """the order in which a directory lists its entries is unspecified: `first` (an entry name) is listed first"""
+    if first is None:
+        yield
+        return
+    import pathlib
+
+    orig = pathlib.Path.glob
+
+    def glob(self, pattern, **kw):
+        res = list(orig(self, pattern, **kw))
+        res.sort(key=lambda p_: p_.name != first)
+        return iter(res)
+
+    pathlib.Path.glob = glob
+    try:
+        yield
+    finally:
+        pathlib.Path.glob = orig
 
 
-def _reader_check(item, root):
-    """a later process: fresh optimizer object on the directory. returns (ok, detail)"""
+def reader_check(item, root, pid_shift=0, auto=False, listing_first=None):
+    with as_pid(pid_shift), listing_order(listing_first):
+        return _reader_check(item, root, auto)
+
+
+def _reader_check(item, root, auto=False):
+    """a later process: fresh optimizer object on the directory. returns (ok, detail).
+    auto: the later process does not say which layout the directory has (directory_split='auto', the default)"""
     import cotengra.utils as U
 
     kw = dict(directory_split=item["split"], hash_method=item["hash"])
+    if auto:
+        kw.pop("directory_split")
     try:
         opt = make_opt(item["opt"], root, **kw)
         tree = opt.search(*QUERY)
@@ -401,13 +426,21 @@ def run_item(item, rec):
             counter[0] += 1
             root = os.path.join(work, f"r{counter[0]}")
             materialise(st, root)
-            ok, detail = reader_check(item, root)
+            # an empty / missing directory has no layout to detect: 'auto' is only meaningful (and only claimed) once something was stored
+            auto = bool(symx.choose("later_process_detects_layout", 2)) if item["case"] != "fresh" else False
+            first = None
+            if auto:
+                # which entry the directory lists first is unspecified (and is what the detection looks at): solver-chosen
+                entries = sorted(os.listdir(root)) if os.path.isdir(root) else []
+                if len(entries) > 1:
+                    first = entries[symx.choose("listed_first", len(entries))]
+            ok, detail = reader_check(item, root, auto=auto, listing_first=first)
             shutil.rmtree(root, ignore_errors=True)
             outcomes[detail if ok else "FAIL"] = outcomes.get(detail if ok else "FAIL", 0) + 1
             ev = events[ci] if ci < nev else ("after-all",)
             fk = None
             rec.refute(ctx, not ok, "later process finds the complete entry or behaves as if absent",
-                       lambda m: dict(item=item, crashes=[[ci, k, 0]], crash_event=[str(x)[:60] for x in ev[:2]], detail=detail, finding_key=fk,
+                       lambda m: dict(item=item, crashes=[[ci, k, 0]], reader_auto=auto, listed_first=first, crash_event=[str(x)[:60] for x in ev[:2]], detail=detail, finding_key=fk,
                                       signature=["C15", item["opt"], item["case"], item["split"], ev[0], detail[:60]]))
             return ci, k
 
@@ -523,9 +556,23 @@ warnings.simplefilter("ignore")
 sys.path.insert(0, __import__("os").environ["VERIF_ROOT"])
 from checks import c15
 item = json.loads(sys.argv[1])
-ok, detail = c15.reader_check(item, sys.argv[2])
+ok, detail = c15.reader_check(item, sys.argv[2], auto=(len(sys.argv) > 3 and sys.argv[3] == "1"), listing_first=(sys.argv[4] if len(sys.argv) > 4 and sys.argv[4] else None))
 print(json.dumps([ok, detail]))
 """
+
+
+def _listed_first(v, d):
+    """the entry the symbolic run listed first; a temporary file carries the writer's pid in its name, so it is
+    matched by its stem in the directory the real (killed) writer left"""
+    first = v.get("listed_first")
+    if not first or not os.path.isdir(d):
+        return ""
+    names = os.listdir(d)
+    if first in names:
+        return first
+    stem = first.split(".tmp")[0]
+    cand = [x for x in names if x.split(".tmp")[0] == stem and (".tmp" in x) == (".tmp" in first)]
+    return cand[0] if cand else ""
 
 
 def replay(v):
@@ -550,12 +597,12 @@ def replay(v):
             if p.returncode != 0:
                 return True, f"after a writer killed at {v['crashes'][0][:2]}, the next writer process fails: {(p.stderr.strip().splitlines() or [p.returncode])[-1]}"[:300]
             return False, "second writer runs fine"
-        r = subprocess.run([sys.executable, "-W", "ignore", "-c", _READER, json.dumps(item), d], capture_output=True, text=True, env=env, timeout=300)
+        r = subprocess.run([sys.executable, "-W", "ignore", "-c", _READER, json.dumps(item), d, "1" if v.get("reader_auto") else "0", _listed_first(v, d)], capture_output=True, text=True, env=env, timeout=300)
         if r.returncode != 0:
             return True, f"reader process crashed: {r.stderr[-300:]}"
         ok, detail = json.loads(r.stdout.strip().splitlines()[-1])
         if not ok:
-            return True, f"writer(s) killed at (event, bytes, pid-shift) {v['crashes']}; later process: {detail}"
+            return True, f"writer(s) killed at (event, bytes, pid-shift) {v['crashes']}; later process{' (directory_split left at its default; the directory lists ' + repr(v.get('listed_first')) + ' first)' if v.get('reader_auto') else ''}: {detail}"
         return False, f"later process behaves correctly ({detail})"
     finally:
         shutil.rmtree(work, ignore_errors=True)
